@@ -316,6 +316,7 @@ func registerTLSAndReady() {
 		v := v
 		reg(&Scn{Name: "ready-" + v.name, Props: []string{"C17"}, Quick: 3, Thor: -1, Body: func() {
 			w := NewWorld()
+			vrt.PermuteMaps = false
 			curSpec = nil
 			if v.inUse {
 				if _, err := vnet.Listen("tcp", defaultAddr); err != nil {
@@ -448,6 +449,7 @@ func registerTLSAndReady() {
 			rq, op := rq, op
 			reg(&Scn{Name: "dir-" + rq.name + "-vs-" + op.name, Props: []string{"C15"}, Quick: 2, Thor: -1, Body: func() {
 				w := NewWorld()
+				vrt.PermuteMaps = false
 				curSpec = nil
 				t := &harnessT{}
 				logger := hclog.New(&hclog.LoggerOptions{Level: hclog.Off, Output: w.LogBuf})
@@ -488,6 +490,7 @@ func registerTLSAndReady() {
 		ra, rb := reqs[pr[0]], reqs[pr[1]]
 		reg(&Scn{Name: "dir-" + ra.name + "-vs-" + rb.name, Props: []string{"C15"}, Quick: 2, Thor: 3, Body: func() {
 			w := NewWorld()
+			vrt.PermuteMaps = false
 			curSpec = nil
 			t := &harnessT{}
 			logger := hclog.New(&hclog.LoggerOptions{Level: hclog.Off, Output: w.LogBuf})
